@@ -509,13 +509,25 @@ func (x *Exec) doSelect(s *State, f *Frame, in *ssa.Select) bool {
 				// time passes only when nothing else can proceed: the other runnable goroutines run
 				// first (the select is re-evaluated afterwards), then the timer fires
 				me := ns.thread()
+				next := -1
 				for i, t := range ns.Threads {
-					if i != ns.Cur && !t.Done && t.Blocked == nil && !t.Quiescing {
-						me.Quiescing = true
-						ns.Cur = i
-						x.push(ns)
-						return false
+					if i != ns.Cur && !t.Done && t.Blocked == nil {
+						// a goroutine that is itself only waiting for the others to settle
+						// (Quiesce) still comes before the passing of time, but after the busy ones
+						if !t.Quiescing {
+							next = i
+							break
+						}
+						if next < 0 {
+							next = i
+						}
 					}
+				}
+				if next >= 0 {
+					me.Quiescing = true
+					ns.Cur = next
+					x.push(ns)
+					return false
 				}
 				me.Quiescing = false
 				fire(ns, ns.top(), timer)
